@@ -18,7 +18,7 @@ POSITIONS = ["top", "fun", "closure", "method", "test"]
 MODES = ["playground-run", "sandboxed-test"]
 GIB = 1024 * 1024
 WALL = 60.0
-HEAVY_PARALLEL = 4
+HEAVY_PARALLEL = 6
 BIGSTR = 'let big = "ab"\nlet big_i = 0\nwhile big_i < 17 { big = big ^ big big_i += 1 }\n'          # 256 KiB
 BIGLIST = 'let bigl_s = "ab"\nlet bigl_i = 0\nwhile bigl_i < 15 { bigl_s = bigl_s ^ bigl_s bigl_i += 1 }\nlet bigl = bigl_s.chars()\n'   # 65 536 one-character strings
 MAXI, MINI = "9223372036854775807", "-9223372036854775808"
@@ -69,6 +69,9 @@ def loops():
         ("recursion: through a map callback", "fun rec_map() { [1].map(fun(_) { rec_map() }) }\n", "rec_map()", False),
         ("blocking: read_line with stdin open", "", "let line = read_line()\nthrow(string_repr(line))", True),
     ]
+
+
+QUICK_BOTH_MODES = ("growth: string doubling in a loop", "growth: list nesting in a loop")
 
 
 def growth():
@@ -193,7 +196,7 @@ def run(ctx):
     for name, defs, body in growth():
         for pos in POSITIONS:
             for mode in MODES:
-                if ctx.quick and not ((pos, mode) in (("top", "playground-run"), ("test", "sandboxed-test"))):
+                if ctx.quick and not ((pos, mode) == ("top", "playground-run") or ((pos, mode) == ("test", "sandboxed-test") and name in QUICK_BOTH_MODES)):
                     continue
                 add(name, defs, body, pos, mode, heavy=True, unbounded=True, group="growth")
                 if cases and cases[-1]["mech"] == name and name.endswith(" nesting in a loop"):
@@ -219,7 +222,7 @@ def run(ctx):
                 body = f"let v = {init}\nlet nest_i = 0\nwhile nest_i < {d} {{ v = {step} nest_i += 1 }}\n{final}"
                 for pos, mode in two if (ctx.quick or d > 1000) else [(p, m) for p in POSITIONS for m in MODES]:
                     before = len(cases)
-                    add(f"nesting: {nname} nested {d} deep, then {fname}", "", body, pos, mode, heavy=d >= 1000, group="nesting")
+                    add(f"nesting: {nname} nested {d} deep, then {fname}", "", body, pos, mode, heavy=d > 1000, group="nesting")
                     if len(cases) > before:
                         cases[-1]["ladder"] = (nname, fname, pos, mode)
                         if d > 1000:
@@ -334,8 +337,8 @@ def run(ctx):
         ex = combos[sorted(combos)[0]]
         detail = dict(ex)
         cmd = f"(ulimit -v {as_kib}; garden {' '.join(ex['args'])})"
-        if set(combos) >= universe[mech] and len(combos) > 1:
-            ctx.violation(f"{mech} @ every position, both modes: {kind}", dict(detail, positions=sorted(f"{p} / {m}" for p, m in combos)), cli_cmd=cmd)
+        if set(combos) >= universe[mech]:
+            ctx.violation(f"{mech} @ every enumerated position and mode: {kind}", dict(detail, positions=sorted(f"{p} / {m}" for p, m in combos)), cli_cmd=cmd)
         else:
             for (pos, mode) in sorted(combos):
                 ex = combos[(pos, mode)]
@@ -347,6 +350,10 @@ def run(ctx):
         missing = [k for k in need if not oc.get(k)]
         if missing:
             raise Machinery(f"vacuous: outcome classes never seen: {missing}")
+    for g in ("loops", "growth", "large-arguments", "deep-recursion", "nesting"):
+        ws = [r["wall"] for c, r in zip(cases, res) if c["group"] == g]
+        if ws:
+            print(f"  [c25] {g}: {len(ws)} processes, total {sum(ws):.0f} s, longest {max(ws):.1f} s", flush=True)
     n = len(cases)
     ctx.add(states=n, transitions=n + sum(v for k, v in oc.items() if k.startswith("rerun")), nontrivial=n)
     ctx.bound("cases_by_family", {g: sum(1 for c in cases if c["group"] == g) for g in ("loops", "growth", "large-arguments", "deep-recursion", "nesting")})
